@@ -928,6 +928,7 @@ func engineConcLRU(ctx *Ctx) {
 	ctx.R.Extra["distinct_interleaving_shapes_per_shard_sum"] = len(shapes)
 	c11Snapshots(ctx, r)
 	c11SweepRounds(ctx, r)
+	c11DeleteHammer(ctx, r)
 	// hammer phase for the race detector: more goroutines, longer, no recording
 	for round := 0; round < ctx.Pick(6, 40); round++ {
 		lru := cache.NewLRUCache(1+r.Intn(4), []time.Duration{0, time.Hour}[r.Intn(2)])
@@ -1230,4 +1231,78 @@ func c11SweepRounds(ctx *Ctx, r *rand.Rand) {
 		}
 	}
 	ctx.R.Nontriv("overlapping-sweeps", ctx.Seed, ctx.Shard)
+}
+
+// c11DeleteHammer: a few goroutines store, look up and delete the SAME one or two keys as fast as they can (a key that is
+// removed and stored again while another goroutine is half-way through removing it). Afterwards, at rest, the cache is one
+// consistent structure: Size() counts what Keys() lists, every listed key is found, a key stored now is found now, and after
+// Clear nothing is left.
+func c11DeleteHammer(ctx *Ctx, r *rand.Rand) {
+	rounds := ctx.Pick(40, 400)
+	for rd := 0; rd < rounds; rd++ {
+		capacity := []int{1, 2, 3, 8}[rd%4]
+		c := cache.NewLRUCache(capacity, 0)
+		keys := []string{"k0", "k1"}[:1+rd%2]
+		G := []int{3, 4, 6, 8}[(rd/4)%4]
+		cs := map[string]interface{}{"part": "store / look up / delete the same keys", "round": rd, "capacity": capacity, "keys": keys, "goroutines": G}
+		ctx.R.Begin(cs)
+		var wg sync.WaitGroup
+		start := make(chan struct{})
+		for g := 0; g < G; g++ {
+			wg.Add(1)
+			go func(g int) {
+				defer wg.Done()
+				defer func() {
+					if e := recover(); e != nil {
+						ctx.R.Violate(vlib.Violation{Property: "C11", Clause: "panic", Path: "LRUCache/same-key-hammer", Detail: fmt.Sprint(e), Witness: cs})
+					}
+				}()
+				<-start
+				for i := 0; i < 3000; i++ {
+					k := keys[(i+g)%len(keys)]
+					switch (i + g) % 3 {
+					case 0:
+						c.Put(k, i)
+					case 1:
+						c.Delete(k)
+					default:
+						c.Get(k)
+					}
+				}
+			}(g)
+		}
+		close(start)
+		wg.Wait()
+		ctx.R.Eval(int64(G * 3000))
+		ctx.R.Path("same-key-hammer-rounds", 1)
+		bad := ""
+		ks := c.Keys()
+		if c.Size() != len(ks) {
+			bad = fmt.Sprintf("at rest Size() = %d but Keys() lists %d keys %v", c.Size(), len(ks), ks)
+		}
+		for _, k := range ks {
+			if _, ok := c.Get(k); !ok && bad == "" {
+				bad = fmt.Sprintf("at rest Keys() lists %q but Get does not find it (no lifetime configured)", k)
+			}
+		}
+		for i := 0; i < capacity+2 && bad == ""; i++ {
+			k := fmt.Sprintf("fresh%d", i)
+			c.Put(k, i)
+			if v, ok := c.Get(k); !ok || v != interface{}(i) {
+				bad = fmt.Sprintf("at rest, a key stored now (%q) is not found now (found=%v value=%v)", k, ok, v)
+			}
+			if c.Size() > capacity {
+				bad = fmt.Sprintf("at rest Size() = %d exceeds the capacity %d", c.Size(), capacity)
+			}
+		}
+		c.Clear()
+		if bad == "" && (c.Size() != 0 || len(c.Keys()) != 0) {
+			bad = fmt.Sprintf("after Clear: Size() = %d, Keys() = %v", c.Size(), c.Keys())
+		}
+		if bad != "" {
+			ctx.R.Violate(vlib.Violation{Property: "C11", Clause: "not-linearizable", Path: "LRUCache/same-key-hammer", Detail: bad + " - no one-at-a-time order of the stores, look-ups and deletes leaves the cache like this", Witness: cs})
+			return
+		}
+	}
+	ctx.R.Nontriv("same-key-hammer", ctx.Seed, ctx.Shard)
 }
